@@ -96,8 +96,16 @@ class ParametricTransform:
             )
 
     def has_parameters(self) -> bool:
-        r"""Whether this transformation has optimizable parameters."""
-        return isinstance(self.params, Parameter)
+        r"""Whether this transformation has optimizable parameters.
+
+        A transformation which is linked to another one uses the parameters of this other
+        transformation, and therefore has optimizable parameters if the linked transformation has.
+
+        """
+        params = self.params
+        if isinstance(params, ParametricTransform):
+            return params.has_parameters()
+        return isinstance(params, Parameter)
 
     @torch.no_grad()
     def reset_parameters(self: Union[TSpatialTransform, ParametricTransform]) -> None:
